@@ -106,12 +106,32 @@ def fortran(shape):
     return Layout(rs, [(0, s, 1) for s in rs], list(reversed(range(nd))))
 
 
+def contig_variant(shape, rng):
+    """a layout that is contiguous in memory (as_slice_memory_order is Some) but in general not row-major: a random
+    axis permutation with each axis walked forwards or backwards, no padding (covers F order, transposes, inverted
+    axes and their combinations; unit axes keep whatever stride the permutation gives them)"""
+    nd = len(shape)
+    perm = list(range(nd))
+    rng.shuffle(perm)
+    pshape = [0] * nd
+    slices = [None] * nd
+    for a in range(nd):
+        j = perm[a]
+        pshape[j] = shape[a]
+        slices[j] = (0, shape[a], rng.choice([1, 1, -1]))
+    return Layout(pshape, slices, perm)
+
+
 def zoo(shape, rng, count=6):
     """a selection of layouts presenting a logical array of `shape`"""
     nd = len(shape)
     outs = [contiguous(shape)]
     if nd >= 2:
         outs.append(fortran(shape))
+    if nd >= 1:
+        outs.append(contig_variant(shape, rng))
+        if nd >= 2:
+            outs.append(contig_variant(shape, rng))
     for _ in range(count):
         perm = list(range(nd))
         rng.shuffle(perm)
